@@ -5,6 +5,7 @@ import (
 	"go/constant"
 	"go/token"
 	"go/types"
+	"regexp"
 	"sort"
 	"strings"
 	"sync"
@@ -18,10 +19,29 @@ type State struct {
 	cond  string
 	heap  map[string]string
 	cells map[*Cell]Val
+	// log of havocs by key pattern: a heap key first touched after such a havoc
+	// must not be read as the initial heap
+	log []havocRec
+}
+
+type havocRec struct {
+	re *regexp.Regexp
+	id int
+}
+
+// baseName is the name of the (unknown) content of a heap key that has not
+// been touched yet in state st.
+func (st *State) baseName(key string) string {
+	for i := len(st.log) - 1; i >= 0; i-- {
+		if st.log[i].re.MatchString(key) {
+			return fmt.Sprintf("Hv%d.%s", st.log[i].id, sanitize(key))
+		}
+	}
+	return "H0." + sanitize(key)
 }
 
 func (s *State) clone() *State {
-	n := &State{cond: s.cond, heap: make(map[string]string, len(s.heap)), cells: make(map[*Cell]Val, len(s.cells))}
+	n := &State{cond: s.cond, heap: make(map[string]string, len(s.heap)), cells: make(map[*Cell]Val, len(s.cells)), log: s.log}
 	for k, v := range s.heap {
 		n.heap[k] = v
 	}
@@ -50,6 +70,14 @@ type quant struct {
 	fn     string // name of a (Int)->Bool definition
 	lo, hi string // optional bounds ("" = unbounded)
 	pol    int    // polarity of a user quantifier inside the formula it occurs in (+1 positive)
+	line   int    // script length when the quantifier was introduced
+}
+
+// point is a term at which quantified facts are instantiated.
+type point struct {
+	term  string
+	class string
+	line  int
 }
 
 // X is one symbolic execution context (one script).
@@ -63,6 +91,8 @@ type X struct {
 	obls      []*Obligation
 	quants    []quant
 	witnesses []string
+	points    []point
+	pointSeen map[string]bool
 	witClass  map[string]string
 	curClass  string
 	heapSorts map[string]string
@@ -87,6 +117,8 @@ type X struct {
 	wsMemo    map[*ssa.Function]*writeSet
 	wsBusy    map[*ssa.Function]bool
 	polarity  int
+	noFacts   int
+	entryState *State
 	sideConds []sideCond
 }
 
@@ -143,10 +175,13 @@ func (x *X) assume(t string) {
 		return
 	}
 	if p := x.sc.paramName; p != "" && strings.Contains(t, p) {
+		if x.noFacts > 0 {
+			return // type-range facts inside a specification quantifier: not needed, dropped (sound)
+		}
 		save := x.sc.paramName
 		ref := x.sc.Define("fact", SBool, t)
 		name := strings.TrimSuffix(strings.TrimPrefix(ref, "("), " "+save+")")
-		x.quants = append(x.quants, quant{guard: "true", fn: name, class: x.curClass})
+		x.quants = append(x.quants, quant{guard: "true", fn: name, class: x.curClass, line: len(x.sc.lines) + 1})
 		x.sc.paramName = ""
 		x.sc.add(fmt.Sprintf("(assert (forall ((%s Int)) (%s %s))) ;@inst", save, name, save))
 		x.sc.paramName = save
@@ -350,6 +385,8 @@ func (x *X) assumeRef(v string) {
 
 func (x *X) assumeSlice(s Slice) {
 	x.assume(fmt.Sprintf("(and (<= 0 %s) (<= 0 %s) (<= %s %s) (<= (+ %s %s) 4611686018427387904))", s.Off, s.Len, s.Len, s.Cap, s.Off, s.Cap))
+	// the backing array exists already (interior arrays of objects have negative identities)
+	x.assume(fmt.Sprintf("(or (<= %s 0) (select %s %s))", s.Arr, x.heapCur("ALLOC", arrSort(SBool)), s.Arr))
 }
 
 // flatten lists the scalar components of a value (first-class values only).
@@ -607,7 +644,7 @@ func (x *X) heapCur(key, sort string) string {
 		panic(fmt.Sprintf("heap key %s used at sorts %s and %s", key, old, sort))
 	}
 	x.heapSorts[key] = sort
-	name := "H0." + sanitize(key)
+	name := x.st.baseName(key)
 	x.sc.Declare(name, nil, sort)
 	x.st.heap[key] = name
 	return name
@@ -1095,7 +1132,14 @@ func (x *X) mergeEdges(es []edge) *State {
 	if len(live) == 1 {
 		return live[0].st.clone()
 	}
-	out := live[len(live)-1].st.clone()
+	last := live[len(live)-1].st
+	out := last.clone()
+	// the merged state keeps the longest havoc log (conservative: patterns of every branch)
+	for _, e := range live {
+		if len(e.st.log) > len(out.log) {
+			out.log = e.st.log
+		}
+	}
 	var conds []string
 	for _, e := range live {
 		conds = append(conds, e.st.cond)
@@ -1105,14 +1149,17 @@ func (x *X) mergeEdges(es []edge) *State {
 		for k, h := range e.st.heap {
 			if oh, ok := out.heap[k]; !ok || oh != h {
 				if !ok {
-					oh = "H0." + sanitize(k)
+					oh = last.baseName(k)
+					x.sc.Declare(oh, nil, x.heapSorts[k])
 				}
 				out.heap[k] = ite(e.st.cond, h, oh)
 			}
 		}
 		for k, oh := range out.heap {
 			if _, ok := e.st.heap[k]; !ok {
-				out.heap[k] = ite(e.st.cond, "H0."+sanitize(k), oh)
+				bn := e.st.baseName(k)
+				x.sc.Declare(bn, nil, x.heapSorts[k])
+				out.heap[k] = ite(e.st.cond, bn, oh)
 			}
 		}
 		for c, v := range e.st.cells {
@@ -1395,4 +1442,69 @@ func (x *X) globalNeverWritten(g *ssa.Global) bool {
 	}
 	neverWrittenCache[g] = ok
 	return ok
+}
+
+// addPoint registers an instantiation point (a loop witness, a skolem
+// constant, an index used by the code or by a specification).
+func (x *X) addPoint(term, class string) {
+	if x.inline || term == "" {
+		return
+	}
+	if p := x.sc.paramName; p != "" && strings.Contains(term, p) {
+		return
+	}
+	if x.pointSeen == nil {
+		x.pointSeen = map[string]bool{}
+	}
+	if x.pointSeen[term] || len(term) > 200 {
+		return
+	}
+	x.pointSeen[term] = true
+	x.points = append(x.points, point{term: term, class: class, line: len(x.sc.lines)})
+}
+
+// instances renders the instantiation of every quantified fact introduced
+// within the first `upto` script lines at every point introduced within them.
+func (x *X) instances(upto int) string {
+	var b strings.Builder
+	for _, q := range x.quants {
+		if q.line > upto {
+			continue
+		}
+		var pts []string
+		for _, p := range x.points {
+			if p.line > upto {
+				continue
+			}
+			if q.class != "" && p.class != q.class && p.class != "*" && p.class != "idx" {
+				continue
+			}
+			pts = append(pts, p.term)
+			if p.class == "*" {
+				pts = append(pts, "(- "+p.term+" 1)", "(+ "+p.term+" 1)")
+			}
+		}
+		if q.hi != "" && isAtom(q.hi) {
+			pts = append(pts, "(- "+q.hi+" 1)")
+		}
+		if q.lo != "" && isAtom(q.lo) {
+			pts = append(pts, q.lo)
+		}
+		seen := map[string]bool{}
+		for _, w := range pts {
+			if seen[w] {
+				continue
+			}
+			seen[w] = true
+			var rng []string
+			if q.lo != "" {
+				rng = append(rng, fmt.Sprintf("(<= %s %s)", q.lo, w))
+			}
+			if q.hi != "" {
+				rng = append(rng, fmt.Sprintf("(< %s %s)", w, q.hi))
+			}
+			b.WriteString("(assert " + implies(and(q.guard, and(rng...)), "("+q.fn+" "+w+")") + ")\n")
+		}
+	}
+	return b.String()
 }
